@@ -99,3 +99,55 @@ package actions
 //@   modifies gVars, gVarCount
 //@   on entry do gVarCount = 0
 //@   ensures[exactly-status-body-headers] gVarCount == 4 && gVars["return_early_response"] == box(true) && gVars["status_code"] == box(a.Status) && gVars["response_body"] == box(str2bytes(a.Body)) && gVars["response_headers"] == box(utils.DumpHeaders(a.Headers))
+
+// the other action kinds: every variable handed to the proxy is a field of the action, and nothing else is set
+//@ func (*NoOpAction).ReqToSpoeActions
+//@   prop C07
+//@   modifies gVars, gVarCount
+//@   on entry do gVarCount = 0
+//@   ensures[nothing-sent] gVarCount == 0
+//@ func (*NoOpAction).RespToSpoeActions
+//@   prop C07
+//@   modifies gVars, gVarCount
+//@   on entry do gVarCount = 0
+//@   ensures[nothing-sent] gVarCount == 0
+
+//@ func (*ModifyHeadersAction).ReqToSpoeActions
+//@   prop C07
+//@   requires lunarAction != nil
+//@   modifies gVars, gVarCount
+//@   on entry do gVarCount = 0
+//@   ensures[exactly-the-headers] gVarCount == 1 && gVars["request_headers"] == box(utils.DumpHeaders(lunarAction.HeadersToSet))
+
+//@ func (*GenerateRequestAction).ReqToSpoeActions
+//@   prop C07
+//@   requires lunarAction != nil
+//@   modifies gVars, gVarCount
+//@   on entry do gVarCount = 0
+//@   ensures[exactly-headers-body] gVarCount == 3 && gVars["generate_request"] == box(true) && gVars["request_headers"] == box(utils.DumpHeaders(lunarAction.HeadersToSet)) && gVars["request_body"] == box(str2bytes(lunarAction.Body))
+
+//@ func (*ModifyRequestAction).ReqToSpoeActions
+//@   prop C07
+//@   requires lunarAction != nil
+//@   modifies gVars, gVarCount
+//@   on entry do gVarCount = 0
+//@   ensures[flag-and-headers] gVars["modify_request"] == box(true) && gVars["request_headers"] == box(utils.DumpHeaders(lunarAction.HeadersToSet))
+//@   ensures[path]  lunarAction.Path != "" ==> gVars["request_path"] == box(lunarAction.Path)
+//@   ensures[query] lunarAction.QueryParams != "" ==> gVars["request_query_params"] == box(lunarAction.QueryParams)
+//@   ensures[host]  lunarAction.Host != "" ==> gVars["request_host"] == box(lunarAction.Host)
+//@   ensures[body]  lunarAction.Body != "" ==> gVars["request_body"] == box(str2bytes(lunarAction.Body))
+//@   ensures[nothing-else] gVarCount == 2 + ite(lunarAction.Path != "", 1, 0) + ite(lunarAction.QueryParams != "", 1, 0) + ite(lunarAction.Host != "", 1, 0) + ite(lunarAction.Body != "", 1, 0)
+
+//@ func (*ModifyResponseAction).RespToSpoeActions
+//@   prop C07
+//@   requires lunarAction != nil
+//@   modifies gVars, gVarCount
+//@   on entry do gVarCount = 0
+//@   ensures[exactly-status-body-headers] gVarCount == 4 && gVars["modify_response"] == box(true) && gVars["response_headers"] == box(utils.DumpHeaders(lunarAction.HeadersToSet)) && gVars["response_body"] == box(lunarAction.Body) && gVars["status_code"] == box(lunarAction.Status)
+
+//@ func (*RetryRequestAction).RespToSpoeActions
+//@   prop C07
+//@   requires lunarAction != nil
+//@   modifies gVars, gVarCount
+//@   on entry do gVarCount = 0
+//@   ensures[exactly-the-retry-headers] gVarCount == 2 && gVars["retry_request"] == box(true) && gVars["retry_headers"] == box(utils.DumpHeaders(lunarAction.HeadersToSet))
